@@ -11,6 +11,7 @@ import (
 	"fmt"
 	"path/filepath"
 	"strconv"
+	"sync"
 
 	"github.com/cnotch/ipchub/av/format/mpegts"
 	"github.com/cnotch/ipchub/utils/murmur"
@@ -25,6 +26,12 @@ const hlsAacDelay = 100
 
 // SegmentGenerator generate the HLS ts segment.
 type SegmentGenerator struct {
+	// WriteMpegtsFrame runs on the ts muxer's goroutine, Close on the goroutine
+	// that closes the stream: l keeps Close from pulling the open segment away
+	// (and handing its pooled buffer to another stream) under a frame that is
+	// being written.
+	l sync.Mutex
+
 	playlist    *Playlist // 播放列表
 	path        string    // 流路径
 	hlsFragment int       // 每个片段长度
@@ -95,6 +102,9 @@ func (sg *SegmentGenerator) segmentOpen(segmentStartDts int64) (err error) {
 
 // WriteMpegtsFrame implements mpegts.FrameWriter
 func (sg *SegmentGenerator) WriteMpegtsFrame(frame *mpegts.Frame) (err error) {
+	sg.l.Lock()
+	defer sg.l.Unlock()
+
 	// if current is NULL, segment is not open, ignore the flush event.
 	if nil == sg.current {
 		return
@@ -228,6 +238,9 @@ func (sg *SegmentGenerator) isSegmentAbsolutelyOverflow() bool {
 
 // Close .
 func (sg *SegmentGenerator) Close() error {
+	sg.l.Lock()
+	defer sg.l.Unlock()
+
 	if nil == sg.current {
 		return nil
 	}
